@@ -170,6 +170,30 @@ func notifierCancelCheck(r *vrt.Result) string {
 	return ""
 }
 
+func notifierDupCheck(r *vrt.Result) string {
+	if m := baseCheck(r, true, true, true); m != "" {
+		return m
+	}
+	dupPanic, ones := false, 0
+	for _, e := range r.Events {
+		switch e.Kind {
+		case "dup-panic":
+			dupPanic = true
+		case "recv":
+			if e.Int(0) == 1 {
+				ones++
+			}
+		}
+	}
+	if !dupPanic {
+		return "dup-accepted: a second subscription of the same (key, target) pair was not refused"
+	}
+	if ones != 1 {
+		return fmt.Sprintf("dup-changed-registry: after the refused duplicate the first subscription received the publish %d times", ones)
+	}
+	return ""
+}
+
 // Registry model for N-prog: a set of (key, channel) pairs. Publish(key, token) must have
 // delivered token to exactly the channels subscribed under key at its linearization point.
 type nregState struct {
